@@ -501,15 +501,6 @@ def check_iterative_history(pb, opts, ret, events, ll_lib, eval_log):
     randomize = bool(opts.get("randomize_prior_order")) and not in_memory
     choices = [e for e in events if e["op"] == "choice" and e["gen"] == "parent"]
     unis = [e for e in events if e["op"] == "uniform" and e["gen"] == "parent"]
-    if randomize:
-        if len(choices) != 1:
-            return [("inconclusive-pattern", "expected one choice(), saw %d" % len(choices))], info
-        all_idx = np.asarray(choices[0]["result"], dtype=int)
-        if len(np.unique(all_idx)) != len(all_idx) or (len(all_idx) and (all_idx.min() < 0 or all_idx.max() >= N)):
-            bad.append(("evaluation-order-invalid", "shuffled order repeats or leaves the library"))
-            return bad, info
-    else:
-        all_idx = np.arange(budget)
     # what the sampler asked the likelihood code to evaluate
     ev = np.concatenate([np.asarray(x, dtype=int) for x in eval_log]) if eval_log else np.array([], dtype=int)
     # ---- monitors that do not depend on how the uniforms were drawn
@@ -541,6 +532,15 @@ def check_iterative_history(pb, opts, ret, events, ll_lib, eval_log):
                     % (len(ev), budget, opts.get("max_prior_samples"), N)))
     if len(np.unique(ev)) != len(ev):
         bad.append(("row-evaluated-twice", "a library row was evaluated more than once"))
+    if randomize:
+        if len(choices) != 1:
+            return bad + [("inconclusive-pattern", "expected one choice(), saw %d" % len(choices))], info
+        all_idx = np.asarray(choices[0]["result"], dtype=int)
+        if len(np.unique(all_idx)) != len(all_idx) or (len(all_idx) and (all_idx.min() < 0 or all_idx.max() >= N)):
+            bad.append(("evaluation-order-invalid", "shuffled order repeats or leaves the library"))
+            return bad, info
+    else:
+        all_idx = np.arange(budget)
     if not unis:
         return bad + [("inconclusive-pattern", "no uniform draws recorded")], info
     sizes = [int(np.size(e["result"])) for e in unis]
